@@ -116,7 +116,7 @@ class BigQuery(Dialect):
 
     # https://cloud.google.com/bigquery/docs/reference/standard-sql/navigation_functions#percentile_cont
     COERCES_TO = {
-        **TypeAnnotator.COERCES_TO,
+        **{dtype: set(coerces_to) for dtype, coerces_to in TypeAnnotator.COERCES_TO.items()},
         exp.DType.BIGDECIMAL: {exp.DType.DOUBLE},
     }
     COERCES_TO[exp.DType.DECIMAL] |= {exp.DType.BIGDECIMAL}
